@@ -1021,8 +1021,8 @@ func (m *Memory) writeDb(rLocked bool) {
 	l := len(times)
 	m.SavePending.Add(-int32(l))
 
-	// fork
-	go m.savePool.Go(func() error {
+	// fork, unless syncing (the caller expects the records to be stored)
+	write := func() error {
 		if m.disposed.Load() {
 			return nil
 		}
@@ -1053,7 +1053,12 @@ func (m *Memory) writeDb(rLocked bool) {
 		}
 
 		return nil
-	})
+	}
+	if rLocked {
+		go m.savePool.Go(write)
+	} else {
+		_ = write()
+	}
 }
 
 func (m *Memory) log(msg string, args ...any) {
